@@ -2,6 +2,7 @@
 package mon
 
 import (
+	"unsafe"
 	"bytes"
 	"errors"
 	"io"
@@ -34,6 +35,7 @@ type Recorder struct {
 	failErr error
 	onWrite func(TxFrame)
 	after   func(TxFrame)
+	shards  []recShard
 	rx      chan []byte
 	closed  chan struct{}
 	once    sync.Once
@@ -72,7 +74,44 @@ func dirtyPool() {
 	}
 }
 
+// Sharded switches the recorder to the mode used by the race-detector stress run (C09): a mutex shared by every sender would
+// order all goroutines that transmit (and the packet loop that used to collect the frames) and so hide races between them from
+// the detector. In this mode a write only locks one of 64 shards chosen from the address of the sender's buffer (concurrent
+// senders use different buffers), nothing else is touched (no sequence numbers, no fault injection, no pool poisoning), and the
+// frames are collected with TakeShards by a goroutine that does nothing else.
+func (r *Recorder) Sharded() { r.shards = make([]recShard, 64) }
+
+type recShard struct {
+	mu     sync.Mutex
+	frames []TxFrame
+	_      [40]byte
+}
+
+// TakeShards returns and clears the frames of all shards (order between shards is not preserved).
+func (r *Recorder) TakeShards() []TxFrame {
+	var out []TxFrame
+	for i := range r.shards {
+		sh := &r.shards[i]
+		sh.mu.Lock()
+		out = append(out, sh.frames...)
+		sh.frames = nil
+		sh.mu.Unlock()
+	}
+	return out
+}
+
 func (r *Recorder) WriteTo(b []byte, addr net.Addr) (int, error) {
+	if r.shards != nil {
+		if len(b) == 0 {
+			return 0, nil
+		}
+		sh := &r.shards[(uintptr(unsafe.Pointer(&b[0]))>>11)%uintptr(len(r.shards))]
+		f := TxFrame{T: time.Now(), Data: append([]byte(nil), b...)}
+		sh.mu.Lock()
+		sh.frames = append(sh.frames, f)
+		sh.mu.Unlock()
+		return len(b), nil
+	}
 	defer dirtyPool()
 	n, f, after, err := r.writeTo(b, addr)
 	if err == nil && after != nil {
